@@ -4,7 +4,7 @@
     Interface for composition (Model/Plan.v):
       tokens      = list (tag * str)             (Base/Tag.v)
       World       = record of oracles (below)
-      do_expansion overflow_checks tokenize W fuel tokens : res tokens
+      do_expansion tokenize W fuel tokens : res tokens
     [tokenize] is parse_line's token list (needed by expand_alias only).
 
     Regex uses: yes/no tests go through [rx_search] on the ASTs GENERATED from the
@@ -27,7 +27,6 @@ Definition res_map {A B} (f : A -> B) (r : res A) : res B :=
   match r with Ok a => Ok (f a) | Panic s => Panic s | OutOfFuel => OutOfFuel end.
 
 (* panic sites *)
-Definition site_range_overflow : N := 1.   (* shell.rs expand_brace_range: n += incr / n -= incr *)
 Definition site_range_unwrap : N := 2.     (* re.captures(token).unwrap() *)
 
 Definition token := (tag * str)%type.
@@ -126,7 +125,6 @@ Definition parse_i32 (s : str) : option Z :=
   let v := Z.of_N (dec_value d) in
   let z := if neg then (- v)%Z else v in
   if ((i32_min <=? z) && (z <=? i32_max))%Z then Some z else None.
-Definition wrap32 (z : Z) : Z := ((z + 2147483648) mod 4294967296 - 2147483648)%Z.
 
 (** str::parse::<usize> (64-bit): optional '+', ASCII digits+, value < 2^64 *)
 Definition parse_usize (s : str) : option N :=
@@ -412,7 +410,7 @@ with brace_getgroup_f (fuel : nat) (s : str) (depth : nat) (out : list str) (com
                   let out' := out ++ g in
                   if c =? 125 then
                     if comma then Ok (Some (out', r))
-                    else Ok (Some (map (fun x => [123] ++ x ++ [125]) out', ss))
+                    else Ok (Some (map (fun x => [123] ++ x ++ [125]) out', r))
                   else if c =? 44 then brace_getgroup_f f r depth out' true
                   else brace_getgroup_f f ss depth out' comma
               end
@@ -474,33 +472,35 @@ Fixpoint find_range (s : str) : option (str * str * option str) :=
       end
   end.
 
-Definition step32 (oc : bool) (z : Z) : res Z :=
-  if ((i32_min <=? z) && (z <=? i32_max))%Z then Ok z
-  else if oc then Panic site_range_overflow else Ok (wrap32 z).
-
-Fixpoint range_up (fuel : nat) (oc : bool) (n e incr : Z) : res (list str) :=
+(** [n = match n.checked_add(incr) { Some(x) => x, None => break }] : the loop ends at the i32 boundary;
+    debug and release builds behave alike, nothing can panic *)
+Fixpoint range_up (fuel : nat) (n e incr : Z) : res (list str) :=
   match fuel with
   | O => OutOfFuel
   | S f => if (n <=? e)%Z
-           then bind (step32 oc (n + incr)) (fun n' => res_map (cons (z_to_dec n)) (range_up f oc n' e incr))
+           then (if (n + incr <=? i32_max)%Z
+                 then res_map (cons (z_to_dec n)) (range_up f (n + incr)%Z e incr)
+                 else Ok [z_to_dec n])
            else Ok []
   end.
 
-Fixpoint range_down (fuel : nat) (oc : bool) (n e incr : Z) : res (list str) :=
+Fixpoint range_down (fuel : nat) (n e incr : Z) : res (list str) :=
   match fuel with
   | O => OutOfFuel
   | S f => if (n >=? e)%Z
-           then bind (step32 oc (n - incr)) (fun n' => res_map (cons (z_to_dec n)) (range_down f oc n' e incr))
+           then (if (i32_min <=? n - incr)%Z
+                 then res_map (cons (z_to_dec n)) (range_down f (n - incr)%Z e incr)
+                 else Ok [z_to_dec n])
            else Ok []
   end.
 
 Definition range_fuel (a b incr : Z) : nat := Z.to_nat (Z.abs (b - a) / incr) + 2.
 
-Definition range_list (oc : bool) (a b incr : Z) : res (list str) :=
-  if (a >? b)%Z then range_down (range_fuel a b incr) oc a b incr
-  else range_up (range_fuel a b incr) oc a b incr.
+Definition range_list (a b incr : Z) : res (list str) :=
+  if (a >? b)%Z then range_down (range_fuel a b incr) a b incr
+  else range_up (range_fuel a b incr) a b incr.
 
-Definition range_sel (oc : bool) (t : token) : res selr :=
+Definition range_sel (t : token) : res selr :=
   if negb (tag_is_empty (fst t)) || negb (rx_search rx_brace_range (snd t)) then Ok Skip
   else match find_range (snd t) with
        | None => Panic site_range_unwrap
@@ -511,13 +511,13 @@ Definition range_sel (oc : bool) (t : token) : res selr :=
                | None => Ok Abort
                | Some i0 =>
                    let incr := if (i0 <=? 1)%Z then 1%Z else i0 in
-                   res_map (fun l => Repl (map retag l)) (range_list oc a b incr)
+                   res_map (fun l => Repl (map retag l)) (range_list a b incr)
                end
            | _, _ => Ok Abort
            end
        end.
 
-Definition expand_brace_range (oc : bool) (toks : tokens) : res tokens := run_pass (range_sel oc) toks.
+Definition expand_brace_range (toks : tokens) : res tokens := run_pass range_sel toks.
 
 (* ------------------------------------------------------------------ expand_glob *)
 Definition needs_globbing (s : str) : bool := rx_search rx_needs_glob s.
@@ -608,10 +608,8 @@ Fixpoint dollar_loop (fuel : nat) (W : World) (line : str) (log : list str) : re
       else match find_dollar line with
            | None => Ok (None, log)
            | Some (before, cmd, tail, post) =>
-               match run_capture W cmd with
-               | None => dollar_loop f W line (log ++ [cmd])
-               | Some out => dollar_loop f W (dollar_splice before cmd tail post (trim out)) (log ++ [cmd])
-               end
+               let out := match run_capture W cmd with Some o => o | None => [] end in
+               dollar_loop f W (dollar_splice before cmd tail post (trim out)) (log ++ [cmd])
            end
   end.
 
@@ -725,7 +723,7 @@ Definition is_export_prompt (toks : tokens) : bool :=
   end.
 
 (** the passes in the order of shell.rs do_expansion; also returns the command-substitution log *)
-Definition do_expansion_log (oc : bool) (tokenize : str -> tokens) (W : World) (fuel : nat) (toks : tokens)
+Definition do_expansion_log (tokenize : str -> tokens) (W : World) (fuel : nat) (toks : tokens)
   : res (tokens * list str) :=
   if is_arithmetic (tokens_to_line toks) then Ok (toks, [])
   else if is_export_prompt toks then Ok (toks, [])
@@ -736,8 +734,8 @@ Definition do_expansion_log (oc : bool) (tokenize : str -> tokens) (W : World) (
     bind (expand_brace t3) (fun t4 =>
     bind (expand_glob W t4) (fun t5 =>
     bind (do_command_substitution fuel W t5) (fun x =>
-    res_map (fun t7 => (t7, snd x)) (expand_brace_range oc (fst x)))))).
+    res_map (fun t7 => (t7, snd x)) (expand_brace_range (fst x)))))).
 
-Definition do_expansion (oc : bool) (tokenize : str -> tokens) (W : World) (fuel : nat) (toks : tokens)
+Definition do_expansion (tokenize : str -> tokens) (W : World) (fuel : nat) (toks : tokens)
   : res tokens :=
-  res_map fst (do_expansion_log oc tokenize W fuel toks).
+  res_map fst (do_expansion_log tokenize W fuel toks).
